@@ -18,14 +18,14 @@ import (
 )
 
 type RunSpec struct {
-	Index   int      `json:"index"`
-	Seed    uint64   `json:"seed"`
-	Profile string   `json:"profile"`
-	Prop    string   `json:"prop"`
-	Mode    string   `json:"mode"` // "", "c01", "c03", "c18", "sweep"
-	Fuel    int64    `json:"fuel"`
-	Stop    bool     `json:"stop"`
-	Thorough bool    `json:"thorough"`
+	Index    int    `json:"index"`
+	Seed     uint64 `json:"seed"`
+	Profile  string `json:"profile"`
+	Prop     string `json:"prop"`
+	Mode     string `json:"mode"` // "", "c01", "c03", "c18", "sweep"
+	Fuel     int64  `json:"fuel"`
+	Stop     bool   `json:"stop"`
+	Thorough bool   `json:"thorough"`
 }
 
 type mixEntry struct {
@@ -364,17 +364,17 @@ func cmdCheck(args []string) {
 
 // ReplayFile is the on-disk replay format.
 type ReplayFile struct {
-	Engine    int       `json:"engine_version"`
-	Property  string    `json:"property"`
-	Signature string    `json:"expected_signature"`
-	Message   string    `json:"message"`
-	Mode      string    `json:"mode,omitempty"`
-	Fuel      int64     `json:"fuel"`
-	Thorough  bool      `json:"thorough,omitempty"`
-	Minimised bool      `json:"minimised"`
-	OrigSteps int       `json:"original_steps"`
-	OrigOps   int       `json:"original_ops"`
-	Trace     *Trace    `json:"trace"`
+	Engine    int    `json:"engine_version"`
+	Property  string `json:"property"`
+	Signature string `json:"expected_signature"`
+	Message   string `json:"message"`
+	Mode      string `json:"mode,omitempty"`
+	Fuel      int64  `json:"fuel"`
+	Thorough  bool   `json:"thorough,omitempty"`
+	Minimised bool   `json:"minimised"`
+	OrigSteps int    `json:"original_steps"`
+	OrigOps   int    `json:"original_ops"`
+	Trace     *Trace `json:"trace"`
 }
 
 func countOps(t *Trace) int {
@@ -476,9 +476,9 @@ func cmdSurvey(profile string) {
 	var mu sync.Mutex
 	next := 0
 	type agg struct {
-		n     int
-		seed  uint64
-		msg   string
+		n    int
+		seed uint64
+		msg  string
 	}
 	sigs := map[string]*agg{}
 	var wg sync.WaitGroup
